@@ -1297,6 +1297,77 @@ fn shape_sweep(u: &Uni, rep: &mut Report) {
     }
 }
 
+/// A golden ticket for the tip is pooled first (from the honest peer); then a second one for the
+/// same target arrives from a hostile sender (authenticated, unauthenticated), valid or with a
+/// bogus solution. The handler keeps the first one: what the pool holds for that target afterwards
+/// must be what it held before.
+fn golden_ticket_replacement(u: &Uni, rep: &mut Report) {
+    for lite in [false] {
+        for sender in [XA, XU] {
+            for bogus in [false, true] {
+                rep.evaluations += 1;
+                let mut s = match start(u, lite) {
+                    Ok(s) => s,
+                    Err(e) => {
+                        rep.machinery(e);
+                        return;
+                    }
+                };
+                let tip = s.n.tip().1;
+                let difficulty = s.n.blockchain.try_read().unwrap().get_block(&tip).map(|b| b.difficulty).unwrap_or(0);
+                let what = format!("second-golden-ticket-for-a-taken-target/{}/{}", who(sender), if bogus { "bogus-solution" } else { "valid-solution" });
+                let ctx = json!({"case": what});
+                let honest_gt = golden_ticket_tx(tip, difficulty, &key(11), 0);
+                let mut hostile_gt = golden_ticket_tx(tip, difficulty, &key(3), 1);
+                if bogus {
+                    // right length, right target, a solution that is none
+                    // (wire layout: target 32 | random 32 | public key 33)
+                    for b in hostile_gt.data[32..64].iter_mut() {
+                        *b = 0x11;
+                    }
+                    hostile_gt.sign(&key(3).private);
+                }
+                let mut deliver_all = |s: &mut Sim, from: u64, tx: &Transaction, rep: &mut Report| -> bool {
+                    let o = s.n.net(incoming(from, &Message::Transaction(tx.clone())));
+                    if !o.is_done() {
+                        rep.violate(&format!("handler-abort/{}", what), o.label(), ctx.clone());
+                        return false;
+                    }
+                    for _ in 0..20 {
+                        let Some(c) = s.n.pending().first().cloned() else { break };
+                        match s.n.step(c) {
+                            Some(Outcome::Done(())) | None => {}
+                            Some(o) => {
+                                rep.violate(&format!("handler-abort/{}/internal-{:?}", what, c), o.label(), ctx.clone());
+                                return false;
+                            }
+                        }
+                    }
+                    true
+                };
+                if !deliver_all(&mut s, H, &honest_gt, rep) {
+                    continue;
+                }
+                let held = |s: &Sim| -> Option<[u8; 64]> { s.n.mempool.try_read().ok().and_then(|m| m.golden_tickets.get(&tip).map(|(t, _)| t.signature)) };
+                let before = held(&s);
+                if before != Some(honest_gt.signature) {
+                    rep.outcome("golden-ticket-replacement:first-ticket-not-pooled(skipped)");
+                    continue;
+                }
+                if !deliver_all(&mut s, sender, &hostile_gt, rep) {
+                    continue;
+                }
+                let after = held(&s);
+                if after != before {
+                    rep.violate(&format!("pooled-golden-ticket-replaced-by-a-later-one/{}", what), format!("the pool held the honest peer's ticket for the tip; after the second ticket it holds {}", if after == Some(hostile_gt.signature) { "the hostile one" } else { "something else" }), ctx.clone());
+                } else {
+                    rep.outcome("golden-ticket-replacement:first-ticket-kept");
+                }
+            }
+        }
+    }
+}
+
 pub fn main(tier: Tier, replay_file: Option<String>) -> i32 {
     let mut rep = Report::new("C11", tier.clone(), "model_checking");
     let u = match universe() {
@@ -1365,7 +1436,8 @@ pub fn main(tier: Tier, replay_file: Option<String>) -> i32 {
         }
     }
     shape_sweep(&u, &mut rep);
+    golden_ticket_replacement(&u, &mut rep);
     rep.sample(json!({"history": ["Honest", "X(M(3, GhostReqZero))", "Int(Verify)"]}));
-    rep.required_outcomes = vec!["full:hostile-free-end-states".into(), "lite:hostile-free-end-states".into(), "shape-sweep:returned".into()];
+    rep.required_outcomes = vec!["full:hostile-free-end-states".into(), "lite:hostile-free-end-states".into(), "shape-sweep:returned".into(), "golden-ticket-replacement:first-ticket-kept".into()];
     rep.finish()
 }
